@@ -209,9 +209,6 @@ fn kind_ops<F: FftField + PrimeField, D: Dom<F>>(id: &str, caps: &Caps, thorough
     }
     ns.sort();
     ns.dedup();
-    if D::K == "m" && !has_small {
-        ns = vec![0, 1, 2, 5, 1 << 20];
-    }
     for &n in &ns {
         out.line(&format!("C07 new {} {} {:x}", id, D::K, n), &guarded(|| opt_dom::<F, D>(D::new(n))));
         out.line(&format!("C07 csize {} {} {:x}", id, D::K, n), &guarded(|| match D::compute_size_of_domain(n) { Some(s) => format!("{:x}", s), None => "none".into() }));
